@@ -68,9 +68,9 @@ structure Inv (s : St) : Prop where
   toutEq : s.tout = (s.base + s.recv.length) % W
   /-- theSize counts the written-and-unread slots, up to the two in-progress adjustments -/
   sizeEq : s.size + s.p.incI + s.recv.length = s.pushed.length + s.c.decI
-  /-- the unread window of the slot array holds the pushed values -/
-  slots : ∀ k, s.recv.length ≤ k → k < s.pushed.length → s.buf.getD ((s.base + k) % s.cap) 0 = s.pushed.getD k 0
-  fifo : s.recv = s.pushed.take s.recv.length
+  /-- the unread window of the slot array holds the pushed values (when the capacity divides 2^32) -/
+  slots : s.cap ∣ W → ∀ k, s.recv.length ≤ k → k < s.pushed.length → s.buf.getD ((s.base + k) % s.cap) 0 = s.pushed.getD k 0
+  fifo : s.cap ∣ W → s.pushed.take s.recv.length = s.recv
   room : s.p.preInc = true → s.size < s.cap
   bound : s.size ≤ s.cap
   avail : s.c.taking = true → 0 < s.size
@@ -82,12 +82,228 @@ structure Inv (s : St) : Prop where
   wake : s.c = .idle → 0 < s.size → s.signal = true ∨ s.p.raising = true
 
 theorem inv_init (cap base : Nat) (buf : List Nat) (hc : 0 < cap) (hb : buf.length = cap) : Inv (St.init cap base buf) := by
-  constructor <;> simp [St.init, PPC.incI, CPC.decI, PPC.notI, CPC.clrI, PPC.preInc, CPC.taking, PPC.raising, CPC.starting, CPC.blockedPc, hc, hb]
+  constructor
+  all_goals simp only [St.init, PPC.incI, CPC.decI, PPC.notI, CPC.clrI, PPC.preInc, CPC.taking, PPC.raising, CPC.starting, CPC.blockedPc]
+  all_goals first | assumption | omega | simp
 
 theorem inv_call {s : St} (h : Inv s) (v : Nat) (hp : s.p = .rest) : Inv (callPush s v) := by
   obtain ⟨capPos, bufLen, le, tinEq, toutEq, sizeEq, slots, fifo, room, bound, avail, sig, start, blk, wake⟩ := h
   obtain ⟨cap, base, size, blocked, signal, buf, tin, tout, notif, pushed, recv, p, c⟩ := s
   simp only at hp
   subst hp
-  simp only [callPush]
-  constructor <;> simp_all [PPC.incI, PPC.notI, PPC.preInc, PPC.raising]
+  simp only [PPC.incI, PPC.notI, PPC.preInc, PPC.raising] at *
+  refine ⟨capPos, bufLen, le, tinEq, toutEq, sizeEq, slots, fifo, ?_, bound, avail, sig, ?_, blk, ?_⟩
+  · simp [callPush, PPC.preInc]
+  · intro hs; have := start hs; simp [callPush]; exact ⟨this.1, this.2.1⟩
+  · intro hc hz; have := wake hc hz; simp [callPush, PPC.raising]; simpa using this
+
+theorem inv_stepP {s : St} (h : Inv s) : Inv (stepP s) := by
+  obtain ⟨capPos, bufLen, le, tinEq, toutEq, sizeEq, slots, fifo, room, bound, avail, sig, start, blk, wake⟩ := h
+  obtain ⟨cap, base, size, blocked, signal, buf, tin, tout, notif, pushed, recv, p, c⟩ := s
+  simp only at *
+  cases p with
+  | rest => exact ⟨capPos, bufLen, le, tinEq, toutEq, sizeEq, slots, fifo, room, bound, avail, sig, start, blk, wake⟩
+  | full v =>
+    simp only [stepP]
+    split
+    · refine ⟨capPos, bufLen, le, tinEq, toutEq, sizeEq, slots, fifo, ?_, bound, avail, sig, ?_, blk, ?_⟩
+      · simp [PPC.preInc]
+      · intro hs; have := start hs; simp; exact ⟨this.1, this.2.1⟩
+      · intro hc hz; have := wake hc hz; simpa [PPC.raising] using this
+    · refine ⟨capPos, bufLen, le, tinEq, toutEq, sizeEq, slots, fifo, ?_, bound, avail, sig, ?_, blk, ?_⟩
+      · intro _; simp only; omega
+      · intro hs; have := start hs; simp; exact ⟨this.1, this.2.1⟩
+      · intro hc hz; have := wake hc hz; simpa [PPC.raising] using this
+  | write v =>
+    simp only [stepP]
+    simp only [PPC.preInc, PPC.incI, PPC.notI, PPC.raising] at room sizeEq sig wake
+    have hroom := room trivial
+    have hwin : pushed.length - recv.length < cap := by omega
+    refine ⟨capPos, ?_, ?_, ?_, toutEq, ?_, ?_, ?_, fun _ => hroom, bound, avail, ?_, ?_, blk, ?_⟩
+    · simp [bufLen]
+    · simp; omega
+    · simp only [List.length_append, List.length_singleton]; rw [tinEq, Nat.mod_add_mod]; rfl
+    · simp [PPC.incI]; omega
+    · intro hd k hk1 hk2
+      have hslot : tin % cap = (base + pushed.length) % cap := by rw [tinEq]; exact wrap_slot _ _ hd
+      simp only [List.length_append, List.length_singleton] at hk1 hk2
+      rw [hslot]
+      by_cases hkn : k = pushed.length
+      · subst hkn
+        rw [getD_set_eq _ _ _ _ (by rw [bufLen]; exact Nat.mod_lt _ capPos), getD_append_right]
+      · have hlt : k < pushed.length := by omega
+        rw [getD_set_ne _ _ _ _ _ (Ne.symm (mod_ne_of_lt (base + k) (base + pushed.length) cap (by omega) (by omega))),
+          getD_append_left _ _ _ _ hlt]
+        exact slots hd k hk1 hlt
+    · intro hd; rw [List.take_append_of_le_length le]; exact fifo hd
+    · simpa [PPC.notI] using sig
+    · intro hs; have := start hs; simp; exact ⟨this.1, this.2.1⟩
+    · intro hc hz; have := wake hc hz; simpa [PPC.raising] using this
+  | inc =>
+    simp only [PPC.preInc, PPC.incI, PPC.notI, PPC.raising] at room sizeEq sig wake
+    have hroom := room trivial
+    by_cases h0 : size = 0
+    · subst h0
+      simp only [stepP, ↓reduceIte]
+      refine ⟨capPos, bufLen, le, tinEq, toutEq, ?_, slots, fifo, ?_, by simp only; omega, fun _ => by simp only; omega, ?_, ?_, blk, ?_⟩
+      · simp only [PPC.incI]; omega
+      · simp [PPC.preInc]
+      · simpa [PPC.notI] using sig
+      · intro hs; have := start hs; simp; exact ⟨this.1, this.2.1⟩
+      · intro _ _; simp [PPC.raising]
+    · simp only [stepP, h0, ↓reduceIte]
+      refine ⟨capPos, bufLen, le, tinEq, toutEq, ?_, slots, fifo, ?_, by simp only; omega, fun _ => by simp only; omega, ?_, ?_, blk, ?_⟩
+      · simp only [PPC.incI]; omega
+      · simp [PPC.preInc]
+      · simpa [PPC.notI] using sig
+      · intro hs; have := start hs; simp; exact ⟨this.1, this.2.1⟩
+      · intro hc hz; have := wake hc (by omega); simp at this; exact Or.inl this
+  | blk =>
+    simp only [PPC.preInc, PPC.incI, PPC.notI, PPC.raising] at room sizeEq sig wake
+    cases blocked with
+    | true =>
+      simp only [stepP, ↓reduceIte]
+      refine ⟨capPos, bufLen, le, tinEq, toutEq, sizeEq, slots, fifo, ?_, bound, avail, ?_, ?_, blk, ?_⟩
+      · simp [PPC.preInc]
+      · simpa [PPC.notI] using sig
+      · intro hs; have := start hs; simp at this
+      · intro _ _; simp [PPC.raising]
+    | false =>
+      simp only [stepP, Bool.false_eq_true, ↓reduceIte]
+      refine ⟨capPos, bufLen, le, tinEq, toutEq, sizeEq, slots, fifo, ?_, bound, avail, ?_, ?_, blk, ?_⟩
+      · simp [PPC.preInc]
+      · simpa [PPC.notI] using sig
+      · intro hs; have := start hs; simp; exact this.2.1
+      · intro hc hz; simp only at hc; have hb := blk (by rw [hc]; rfl); simp at hb
+  | xchg =>
+    simp only [PPC.preInc, PPC.incI, PPC.notI, PPC.raising] at room sizeEq sig wake
+    cases signal with
+    | true =>
+      simp only [stepP, ↓reduceIte]
+      refine ⟨capPos, bufLen, le, tinEq, toutEq, sizeEq, slots, fifo, ?_, bound, avail, ?_, ?_, blk, ?_⟩
+      · simp [PPC.preInc]
+      · simpa [PPC.notI] using sig
+      · intro hs; have := start hs; simp at this
+      · intro _ _; exact Or.inl rfl
+    | false =>
+      simp only [stepP, Bool.false_eq_true, ↓reduceIte]
+      refine ⟨capPos, bufLen, le, tinEq, toutEq, sizeEq, slots, fifo, ?_, bound, avail, ?_, ?_, blk, ?_⟩
+      · simp [PPC.preInc]
+      · simp [PPC.notI] at sig ⊢; omega
+      · intro hs; have := start hs; simp at this
+      · intro _ _; exact Or.inl rfl
+  | notify =>
+    simp only [stepP]
+    simp only [PPC.preInc, PPC.incI, PPC.notI, PPC.raising] at room sizeEq sig wake
+    refine ⟨capPos, bufLen, le, tinEq, toutEq, sizeEq, slots, fifo, ?_, bound, avail, ?_, ?_, blk, ?_⟩
+    · simp [PPC.preInc]
+    · simp only [PPC.notI]; omega
+    · intro hs; have := start hs; simp; exact ⟨this.1, this.2.1⟩
+    · intro hc hz; have := wake hc hz; simpa [PPC.raising] using this
+
+theorem inv_stepC {s : St} (h : Inv s) : Inv (stepC s) := by
+  obtain ⟨capPos, bufLen, le, tinEq, toutEq, sizeEq, slots, fifo, room, bound, avail, sig, start, blk, wake⟩ := h
+  obtain ⟨cap, base, size, blocked, signal, buf, tin, tout, notif, pushed, recv, p, c⟩ := s
+  simp only at *
+  cases c with
+  | init1 =>
+    simp only [CPC.decI, CPC.clrI, CPC.taking, CPC.starting, CPC.blockedPc] at *
+    simp only [stepC]
+    refine ⟨capPos, bufLen, le, tinEq, toutEq, sizeEq, slots, fifo, room, bound, nofun, sig, ?_, nofun, nofun⟩
+    intro _; exact ⟨rfl, (start trivial).2⟩
+  | init2 =>
+    simp only [CPC.decI, CPC.clrI, CPC.taking, CPC.starting, CPC.blockedPc] at *
+    simp only [stepC]
+    have hs := (start trivial).2.1
+    subst hs
+    exact ⟨capPos, bufLen, le, tinEq, toutEq, sizeEq, slots, fifo, room, bound, nofun, sig, nofun, nofun, nofun⟩
+  | e1 =>
+    simp only [CPC.decI, CPC.clrI, CPC.taking, CPC.starting, CPC.blockedPc] at *
+    by_cases h0 : size = 0
+    · simp only [stepC, h0, ↓reduceIte]
+      subst h0
+      exact ⟨capPos, bufLen, le, tinEq, toutEq, sizeEq, slots, fifo, room, bound, nofun, sig, nofun, nofun, nofun⟩
+    · simp only [stepC, h0, ↓reduceIte]
+      exact ⟨capPos, bufLen, le, tinEq, toutEq, sizeEq, slots, fifo, room, bound, fun _ => by simp only; omega, sig, nofun, nofun, nofun⟩
+  | block =>
+    simp only [CPC.decI, CPC.clrI, CPC.taking, CPC.starting, CPC.blockedPc] at *
+    simp only [stepC]
+    exact ⟨capPos, bufLen, le, tinEq, toutEq, sizeEq, slots, fifo, room, bound, nofun, sig, nofun, fun _ => rfl, nofun⟩
+  | e2 =>
+    simp only [CPC.decI, CPC.clrI, CPC.taking, CPC.starting, CPC.blockedPc] at *
+    by_cases h0 : size = 0
+    · simp only [stepC, h0, ↓reduceIte]
+      subst h0
+      exact ⟨capPos, bufLen, le, tinEq, toutEq, sizeEq, slots, fifo, room, bound, nofun, sig, nofun, fun _ => blk trivial,
+        fun _ hz => by simp at hz⟩
+    · simp only [stepC, h0, ↓reduceIte]
+      exact ⟨capPos, bufLen, le, tinEq, toutEq, sizeEq, slots, fifo, room, bound, fun _ => by simp only; omega, sig, nofun, nofun, nofun⟩
+  | unblock =>
+    simp only [CPC.decI, CPC.clrI, CPC.taking, CPC.starting, CPC.blockedPc] at *
+    simp only [stepC]
+    exact ⟨capPos, bufLen, le, tinEq, toutEq, sizeEq, slots, fifo, room, bound, fun _ => avail trivial, sig, nofun, nofun, nofun⟩
+  | read =>
+    simp only [CPC.decI, CPC.clrI, CPC.taking, CPC.starting, CPC.blockedPc] at *
+    simp only [stepC]
+    have hav := avail trivial
+    have hlt : recv.length < pushed.length := by
+      have : p.incI ≤ 1 := by cases p <;> simp [PPC.incI]
+      omega
+    refine ⟨capPos, bufLen, ?_, tinEq, ?_, ?_, ?_, ?_, room, bound, fun _ => hav, sig, nofun, nofun, nofun⟩
+    · simp; omega
+    · simp only [List.length_append, List.length_singleton]; rw [toutEq, Nat.mod_add_mod]; rfl
+    · simp only [List.length_append, List.length_singleton, CPC.decI]; omega
+    · intro hd k hk1 hk2
+      simp only [List.length_append, List.length_singleton] at hk1
+      exact slots hd k (by omega) hk2
+    · intro hd
+      have hslot : tout % cap = (base + recv.length) % cap := by rw [toutEq]; exact wrap_slot _ _ hd
+      simp only [List.length_append, List.length_singleton]
+      rw [take_succ_getD _ _ 0 hlt, fifo hd, hslot, slots hd _ (Nat.le_refl _) hlt]
+  | dec =>
+    simp only [CPC.decI, CPC.clrI, CPC.taking, CPC.starting, CPC.blockedPc] at *
+    simp only [stepC]
+    have hav := avail trivial
+    refine ⟨capPos, bufLen, le, tinEq, toutEq, ?_, slots, fifo, ?_, by simp only; omega, nofun, sig, nofun, nofun, nofun⟩
+    · simp only [CPC.decI]; omega
+    · intro hp; have := room hp; simp only; omega
+  | idle =>
+    simp only [CPC.decI, CPC.clrI, CPC.taking, CPC.starting, CPC.blockedPc] at *
+    by_cases hn : 0 < notif
+    · simp only [stepC, hn, ↓reduceIte]
+      refine ⟨capPos, bufLen, le, tinEq, toutEq, sizeEq, slots, fifo, room, bound, nofun, ?_, nofun, nofun, nofun⟩
+      simp only [CPC.clrI]; omega
+    · simp only [stepC, hn, ↓reduceIte]
+      exact ⟨capPos, bufLen, le, tinEq, toutEq, sizeEq, slots, fifo, room, bound, nofun, sig, nofun, fun _ => blk trivial, fun _ => wake trivial⟩
+  | clr1 =>
+    simp only [CPC.decI, CPC.clrI, CPC.taking, CPC.starting, CPC.blockedPc] at *
+    simp only [stepC]
+    exact ⟨capPos, bufLen, le, tinEq, toutEq, sizeEq, slots, fifo, room, bound, nofun, sig, nofun, nofun, nofun⟩
+  | clr2 =>
+    simp only [CPC.decI, CPC.clrI, CPC.taking, CPC.starting, CPC.blockedPc] at *
+    simp only [stepC]
+    refine ⟨capPos, bufLen, le, tinEq, toutEq, sizeEq, slots, fifo, room, bound, nofun, ?_, nofun, nofun, nofun⟩
+    cases signal <;> simp [CPC.clrI] at sig ⊢ <;> omega
+
+theorem step_cap {s s' : St} (h : Step s s') : s'.cap = s.cap := by
+  cases h with
+  | call v hp => rfl
+  | prod =>
+    obtain ⟨cap, base, size, blocked, signal, buf, tin, tout, notif, pushed, recv, p, c⟩ := s
+    cases p <;> simp only [stepP] <;> (try split) <;> rfl
+  | cons =>
+    obtain ⟨cap, base, size, blocked, signal, buf, tin, tout, notif, pushed, recv, p, c⟩ := s
+    cases c <;> simp only [stepC] <;> (try split) <;> rfl
+
+theorem inv_step {s s' : St} (h : Inv s) (hs : Step s s') : Inv s' := by
+  cases hs with
+  | call v hp => exact inv_call h v hp
+  | prod => exact inv_stepP h
+  | cons => exact inv_stepC h
+
+theorem inv_reachable {s : St} (hr : Reachable s) : Inv s := by
+  induction hr with
+  | init cap base buf hc hb => exact inv_init cap base buf hc hb
+  | step _ hs ih => exact inv_step ih hs
+
+end SquidModel.Ipc.Queue
